@@ -1010,20 +1010,33 @@ _dispatch_sync_complete_recurse(dispatch_queue_t dq, dispatch_queue_t stop_dq,
 		uintptr_t dc_flags)
 {
 	bool barrier = (dc_flags & DC_FLAG_BARRIER);
+	dispatch_queue_t tq, retained_dq = NULL;
+	bool retain_targets = false;
 	do {
-		if (dq == stop_dq) return;
+		if (dq == stop_dq) break;
 		// the queue that was locked below `dq` is its target queue for as long
 		// as `dq` is owned: once `dq` is completed, a pending
-		// dispatch_set_target_queue() can change it
-		dispatch_queue_t tq = dq->do_targetq;
+		// dispatch_set_target_queue() can change it, which also drops the
+		// reference `dq` has on it. The queues below are still locked by this
+		// thread: keep them alive until they are completed too.
+		tq = dq->do_targetq;
+		retain_targets = retain_targets || _dispatch_queue_is_mutable(dq);
+		if (unlikely(retain_targets) && tq->do_targetq) {
+			_dispatch_retain(tq);
+		} else {
+			retain_targets = false;
+		}
 		if (barrier) {
 			dx_wakeup(dq, 0, DISPATCH_WAKEUP_BARRIER_COMPLETE);
 		} else {
 			_dispatch_lane_non_barrier_complete(upcast(dq)._dl, 0);
 		}
+		if (unlikely(retained_dq)) _dispatch_release(retained_dq);
+		retained_dq = retain_targets ? tq : NULL;
 		dq = tq;
 		barrier = (dq->dq_width == 1);
 	} while (unlikely(dq->do_targetq));
+	if (unlikely(retained_dq)) _dispatch_release(retained_dq);
 }
 
 DISPATCH_NOINLINE
